@@ -12,8 +12,9 @@ CASES = [
     ("h/a/x/>/m", "h/a/x/v", "/m", "h/a/x/v1/m;h/a/x/v1/b", "@/H/A/x/v1/x_v2.m", "/H/A/x/v1/x_v1.", "Q"),
     ("h/*/*/*", "h/a/", "/v1", "h/s/q1/v1", "@/H/S/q1/zz", "/H/S/q1/", "Q"),
     ("h/a/**", "h/a/x/v1/", "", "h/a/x/v1/g", "@/H/A/x/v1/O/y_v1.g", "/H/A/x/v1/O/x_v1.", "Q"),
+    ("h/s/q1/**", "h/s/q1/v1/", "/c", "h/s/q1/v1/c;h/s/q1/v1/m", "@/H/S/q1/v1/E/q2_v1.c;@/H/S/q1/v1/E/q1_v1.Q", "", ""),
 ]
-ALL_CASES = [("h/*/*", "h/a/", "", "h/s/q1"), ("h/*", "h/a/", "", ""), ("*", "h/a/", "", ""), ("h/a/*/*", "h/a/", "/v1", "h/a/x/v2"), ("h/s,a", "h/a/", "", "")]
+ALL_CASES = [("h/*/*", "h/a/", "", "h/s/q1"), ("h/*", "h/a/", "", ""), ("*", "h/a/", "", ""), ("h/a/*/*", "h/a/", "/v1", "h/a/x/v2"), ("h/s,a", "h/a/", "", ""), ("*/a,s", "h/a/", "", ""), ("*/*", "h/a/", "", ""), ("*/s,a/*", "h/a/", "", "h/s/q1")]
 
 
 def x_obligations(tier):
